@@ -3,6 +3,7 @@
 run under the deterministic scheduler shim, against the extracted transition function; plus a direct property
 checker on every real trace and a classification of every rest (deadlock) state."""
 import json, os, re, sys
+from concurrent.futures import ThreadPoolExecutor
 HERE = os.path.dirname(os.path.abspath(__file__))
 sys.path.insert(0, os.path.join(HERE, "..", "lib"))
 import verif
@@ -115,8 +116,11 @@ def with_run(sc, sp, st, seed): return "%s sp=%d st=%d seed=%d" % (sc, sp, st, s
 corpus = [l.strip() for l in open(os.path.join(verif.VERIF, "corpus", "C10", "cases.txt")) if l.strip() and not l.startswith("#")]
 cases = list(corpus)
 fams = {}; feats = {}
+tsan_replay = None
 if ck.replay:
     cases = [json.load(open(ck.replay))["case"]]
+    if cases[0].startswith("tsan_stress"):
+        tsan_replay = dict(kv.split("=") for kv in cases[0].split()[1:]); cases = corpus[:1]
 else:
     NSC = 9000 if ck.thorough() else 1300          # scenarios; each is run under several schedules
     for k in range(NSC):
@@ -132,9 +136,15 @@ open(casefile, "w").write("\n".join(cases) + "\n")
 
 # ---------------------------------------------------------------- run both sides
 found = False
-exe, log = ck.build_cpp("c10_harness", ["harness/C10/pool_harness.cpp"], repo_sources=["tlx/thread_pool.cpp"],
-                        extra=["-include", os.path.join(verif.VERIF, "harness", "sched", "verif_sched.hpp")])
-drv, dlog = ck.ocaml_driver("C10")
+with ThreadPoolExecutor(max_workers=2) as ex:
+    f1 = ex.submit(ck.build_cpp, "c10_harness", ["harness/C10/pool_harness.cpp"], None, ["tlx/thread_pool.cpp"],
+                   ["-include", os.path.join(verif.VERIF, "harness", "sched", "verif_sched.hpp")])
+    # real threads, no shim, ThreadSanitizer: the happens-before edges the property promises (outside the Coq model)
+    f2 = ex.submit(ck.build_cpp, "c10_tsan", ["harness/C10/tsan_stress.cpp"],
+                   ["-std=c++17", "-O1", "-g", "-w", "-fsanitize=thread", "-DTLX_HAVE_THREAD_SANITIZER=1"], ["tlx/thread_pool.cpp"])
+    drv, dlog = ck.ocaml_driver("C10")
+    exe, log = f1.result()
+    exe_tsan, log_tsan = f2.result()
 stats = {"ok": 0, "rest_legit": 0, "spurious_runs": 0, "with_termination": 0, "le_returns": 0, "events": 0,
          "model_skipped_direct_checks_only": 0}
 distinct = set()
@@ -230,11 +240,46 @@ else:
             elif corr_broken:
                 ck.say("# C10: (also) correspondence broken: " + corr_broken[0][:200])
 
+# ---------------------------------------------------------------- real threads under ThreadSanitizer
+tsan_rounds = 0; tsan_runs = []
+if exe_tsan is None:
+    ck.violation("ThreadSanitizer stress program does not compile against /repo", {"correspondence": "harness/C10/tsan_stress.cpp (-fsanitize=thread)", "log": log_tsan[-2000:]}, no_input=True)
+else:
+    if tsan_replay: plans = [(tsan_replay["rounds"], tsan_replay["seed"], tsan_replay.get("scenario"), tsan_replay.get("round"))]
+    elif ck.replay: plans = []
+    else: plans = [(1500 if ck.thorough() else 300, str(1 + rng.below(1 << 30)), None, None) for _ in range(4 if ck.thorough() else 2)]
+    for rounds, sd, osc, ornd in plans:
+        cmd = [exe_tsan, str(rounds), sd] + ([osc, ornd] if osc is not None else [])
+        rct, outt = verif.sh(cmd, timeout=1200, env=dict(os.environ, TSAN_OPTIONS="halt_on_error=0 report_signal_unsafe=0"))
+        nr = sum(1 for l in outt.splitlines() if l.startswith("R ") or l.startswith("BAD "))
+        tsan_rounds += nr; tsan_runs.append({"rounds": rounds, "seed": sd, "completed": nr, "rc": rct})
+        i = outt.find("WARNING: ThreadSanitizer")
+        bad = [l for l in outt.splitlines() if l.startswith("BAD ")]
+        if i >= 0:
+            found = True
+            m = re.findall(r"^ROUND (\d+) (\d+) (\d+)", outt[:i], flags=re.M)
+            scn, rnd_, thr = m[-1] if m else ("?", "?", "?")
+            ck.violation("ThreadSanitizer reports a data race between a job's effects and the caller / the pool (real threads): scenario %s round %s, %s threads" % (scn, rnd_, thr),
+                         {"case": "tsan_stress rounds=%s seed=%s scenario=%s round=%s" % (rounds, sd, scn, rnd_), "threads": thr, "report": outt[i:i + 3500],
+                          "replay_cmd": "bin/check C10 --replay <this file>  (or: build harness/C10/tsan_stress.cpp with -fsanitize=thread; ./tsan_stress %s %s %s %s)" % (rounds, sd, scn, rnd_)},
+                         key="tsan:race")
+        if bad:
+            found = True
+            f = bad[0].split(None, 4)
+            ck.violation("real-thread run: the jobs' effects are not what the caller sees after loop_until_empty / loop_until_terminate / the destructor: " + bad[0],
+                         {"case": "tsan_stress rounds=%s seed=%s scenario=%s round=%s" % (rounds, sd, f[1], f[2]), "threads": f[3], "first_bad": bad[0], "all_bad": bad[:10]},
+                         key="tsan:value")
+        if i < 0 and not bad and (rct != 0 or (osc is None and nr != int(rounds))):
+            ck.violation("ThreadSanitizer stress program failed (rc=%d, %d of %s rounds)" % (rct, nr, rounds),
+                         {"case": "tsan_stress rounds=%s seed=%s" % (rounds, sd), "log_tail": outt[-2500:]})
+        if i >= 0 or bad: break
+
 if pr is not None and not pr["ok"]:
     ck.proof_broken(found)
 
 ck.finish({
-    "evaluations": len(cases),
+    "evaluations": len(cases) + tsan_rounds,
+    "tsan_rounds": tsan_rounds, "tsan_runs": tsan_runs,
     "distinct_nontrivial": len(distinct),
     "traces_validated_against_impl": stats["ok"] + stats["rest_legit"],
     "rule": "scenarios = pool size 1-4, 0-3 client threads + main thread, job forests (independent, fan-out, chains, mixed, jobs calling "
@@ -246,11 +291,13 @@ ck.finish({
             "terminate() during start-up), the default-size constructor, and the observers size()/idle()/has_idle()/thread(i)/done(). "
             "Every event of every real trace must be accepted by the extracted Coq transition function (atomic values, notify_one targets, "
             "user payloads are part of the events); a direct checker evaluates the property on the trace; rest states are classified. "
-            "non-trivial = at least one job executed and >= 30 events; distinct = distinct event trace.",
+            "non-trivial = at least one job executed and >= 30 events; distinct = distinct event trace. In addition a real-thread stress program "
+            "(no shim, -fsanitize=thread, pools of 1-8 threads, job trees / chains writing plain memory, two concurrent waiters, terminate from a job "
+            "and from a client, destructor) runs a few hundred rounds: any TSan report or wrong value is a violation (tsan_rounds).",
     "samples": samples,
     "input_distribution": dict(stats, families=fams, features=feats, corpus=len(corpus)),
 }, assumptions=[
-    "atomics are sequentially consistent and the fences no-ops (the shim serialises threads): weak-memory effects are outside the model",
+    "atomics are sequentially consistent and the fences no-ops under the shim: weak-memory effects / data races are outside the Coq model; the happens-before edges the property promises (job effects -> return of loop_until_empty / loop_until_terminate / destructor, parent job -> enqueued job) are covered at run time by harness/C10/tsan_stress.cpp (real threads, plain memory, ThreadSanitizer, both tiers)",
     "std::mutex / std::condition_variable / std::thread behave as the shim (harness/sched/verif_sched.hpp) implements them; the shim is trusted",
     "a job that throws std::exception is modelled as an ordinary job (the pool's catch block falls through to the bookkeeping); jobs do not block other than in enqueue()/terminate(); the pool is destroyed only after all client threads are joined",
     "closure destruction, the InitThread hook, size()/thread(i) have no event in the LTS: they are examined by the direct trace checker only; idle()/has_idle() loads are compared with the model's idle_",
